@@ -9,7 +9,7 @@ from harness import core, py2lean, instantiate
 from harness.core import Outcome, f2b, b2f
 
 ID = "C18"
-LEAN_TARGETS = ["BeyondVerif.Props.C18", "BeyondVerif.Props.C18Hist", "BeyondVerif.Props.C18Arg", "BeyondVerif.Props.C18Series", "BeyondVerif.Witness.C18"]
+LEAN_TARGETS = ["BeyondVerif.Props.C18", "BeyondVerif.Props.C18Hist", "BeyondVerif.Props.C18Arg", "BeyondVerif.Props.C18Series", "BeyondVerif.Props.C18Tab", "BeyondVerif.Witness.C18"]
 THEOREMS = [
     "BeyondVerif.C18.spk_chain",
     "BeyondVerif.C18.spk_offset",
@@ -38,6 +38,12 @@ THEOREMS = [
     "BeyondVerif.C18.sun_state_entries",
     "BeyondVerif.C18.moon_state_entries",
     "BeyondVerif.C18.velocity_error_at_steps",
+    "BeyondVerif.C18.table_length",
+    "BeyondVerif.C18.table_point",
+    "BeyondVerif.C18.table_point_function_of_date",
+    "BeyondVerif.C18.sun_table_entries",
+    "BeyondVerif.C18.moon_table_entries",
+    "BeyondVerif.C18.tabulation_is_modelled",
     "BeyondVerif.CentralDiff.central_difference_error",
     "BeyondVerif.CentralDiff.central_difference_exact_quadratic",
     "BeyondVerif.C18W.two_centres_consistent",
@@ -62,7 +68,10 @@ LEVEL_TEXT = ("Lean theorems about a model of create_frames / JplPropagator.prop
               "caller dates of any scales whose TDB conversions denote one instant ask the kernel at one argument (kernel_arg_of_instant). Sun/Moon: the two series are translated "
               "from solarsystem.py on every run; for every T the position is distance x unit vector with the distance inside the range of its series, the velocity "
               "entries are the symmetric difference quotient of the positions, whose distance from the derivative is bounded by h^2/6 sup|f3| (general theorem, "
-              "instantiated to the two steps read from the classes). The model is tied to the code by a differential correspondence on all ordered pairs of the real "
+              "instantiated to the two steps read from the classes); the same at every point of every tabulation (Orbit.iter / ephemeris / ephem / propagator.iter, start-stop-step or dates=): "
+              "a tabulated state is the single propagation at its date, a function of that date only - not of the step of the table, its neighbours, its place or the number of points "
+              "(table_point, table_point_function_of_date, sun/moon_table_entries), the shape of the inherited _iter (yields self.propagate(date) for each date, nothing else) and the method "
+              "resolution of the two classes being regenerated from the live classes on every run (tabulation_is_modelled). The model is tied to the code by a differential correspondence on all ordered pairs of the real "
               "kernel with and without PCK files, on synthetic kernels installed in place of the file, on the two propagators, and on histories of requests driven through the real objects "
               "(get_orbit / get_propagator / Body.propagate / hand-made propagators in both directions of every segment, in-place frame, form and value changes of the answers, copies, "
               "as_frame of the answers incl. QSW/TNW orientations and Ephem.as_frame at the nodes, synthetic SPK type 3 segments, Center.convert_to, repeated and interleaved dates and bodies) against the Lean state machine `run` fed with the same segment values.")
@@ -83,6 +92,7 @@ TRUSTED = [
     "numpy / libm double arithmetic vs R: tolerance 1e-12 (SPK chaining, same operations in the same order) and 1e-10 (series)",
     "harness/props/C18.py extract_kernel_arg: the reader of the kernel-argument expression (straight-line assignments of JplPropagator.propagate; anything it does not understand is refused and the check fails); own_tdb_jd: the TDB Julian date of an instant from the definitions of the scales and the IERS tables as parsed independently by C03",
     "C03 (Model/Date.lean, Props C03.changeScale_instant): change_scale keeps the instant to 1.5 us; kernel_arg_of_instant builds on it",
+    "harness/props/C18.py extract_routes / _yields_propagate_of_each_date: reads which class the Sun / Moon propagators take propagate, iter, _iter from (live method resolution order) and recognises the shape of that _iter from its AST; Orbit.iter / ephemeris / ephem and AnalyticalPropagator.iter handing the states of _iter on unchanged is tied by the correspondence on tabulations only",
     "harness/props/C18.py chain_direct: the independent 'chain the segments directly' reference used by the oracle (breadth-first walk over the pairs, jplephem values)",
 ]
 ASSUMPTIONS = [
@@ -98,6 +108,7 @@ ASSUMPTIONS = [
 NOT_COVERED = [
     "agreement of the analytical Sun and Moon series with the JPL DE ephemeris (0.02 deg, 1e-4; 0.7 deg, 0.5 %): formula vs binary data file - oracle only (DE403 2000-2020)",
     "a bound on the third derivative of the two series (needed to turn velocity_error_at_steps into a number): oracle only (numerical third differences)",
+    "the dates of a tabulation (Date.range: which dates lie between start and stop, the end compared at the microsecond) are C03's: here every returned state must be at the requested date; tabulations with listeners that fire (events inserted between the points) are C10's; interpolation inside an Ephem of the Sun / Moon is C09's (only the nodes are checked here)",
     "dates outside the span of the kernel (jplephem raises) and kernels with several time-sliced segments for one (center, target) pair",
     "Ephem.as_frame away from the nodes of the Ephem (interpolation error; at a node the offset is the propagated state: covered, at 1e-8); for frames made with orientation='QSW'/'TNW' only the centre is checked (conversions of the origin FROM the new frame; the rotation itself is C02's); jpl.get_body(name) without PCK files raises UnknownBodyError for every name (no vector is returned; the route Body.propagate is exercised through get_frame(name).center.body, and through get_body when PCK files are configured)",
 ]
@@ -109,7 +120,11 @@ OPEN = [
 RULE = ("correspondence: every ordered pair of the 16 bodies of de403_2000-2020.bsp (+ the built-in EME2000 frame) x dates across the span (both ends included) x "
         "{get_orbit(a).copy(frame=b), zero state vector re-framed} x {with, without PCK files} and random synthetic tree kernels (2-8 bodies, rooted and arbitrarily "
         "oriented, random order) installed in place of the file, real code vs the compiled Lean model fed with the same jplephem segment values (rtol 1e-12, same error kinds); "
-        "Sun/Moon propagate vs the translated series + difference quotient at 1950-2050 dates (rtol 1e-10); non-trivial = a != b; distinct = distinct (kernel, op, a, b, date). "
+        "Sun/Moon propagate vs the translated series + difference quotient at 1950-2050 dates (rtol 1e-10); tabulations of the Sun / Moon: 13 routes (Orbit.iter with start-stop-step, "
+        "timedelta stop, default start, stop before start, dates= as list / generator, listeners; Orbit.ephemeris, Orbit.ephem, propagator.iter, each with a range or dates=) x 1-9 points x "
+        "steps from 1 s to 45 days (below, at and above the built-in 1 day / 5 days) x regular, irregular, repeated and unsorted dates, the stop on the last point or up to 0.9 step beyond: "
+        "every point vs the Lean Solar.sunTable / moonTable (1e-10) in the correspondence, and in the oracle at the requested date, where Body.propagate puts the body, velocity vs the "
+        "derivative of the positions within the theorem's bound at the class's step; non-trivial = a != b; distinct = distinct (kernel, op, a, b, date). "
         "histories: per configuration one exhaustive family (every segment through a hand-made propagator in both directions; the frame made from the orbit of every body against every "
         "body both ways; every body asked twice at one date with an in-place conversion of the first answer in between) and random histories of 36 requests over 1-3 dates, in both the "
         "correspondence (vs the Lean `run`, 1e-11 of the terms summed) and the oracle (vs the segments chained in the harness, 4e-12; 1e-8 after a change of form). "
@@ -145,6 +160,7 @@ def extract(ctx):
         changed.append("Generated/JplKernel.lean")
     changed += extract_series()
     changed += extract_kernel_arg()
+    changed += extract_routes()
     changed += instantiate.main()
     return changed
 
@@ -166,6 +182,63 @@ def extract_series():
              f"def auMetres : R := ({float(units.AU)!r} : R)\n"
              f"def earthRadius : R := ({float(constants.Earth.r)!r} : R)\n")
     return py2lean.instantiate(core.LEAN, "SunMoon", body, "beyond/env/solarsystem.py")
+
+
+def _yields_propagate_of_each_date(fn):
+    """shape of a `_iter`: every value it yields is `self.propagate(x)`, x the variable of the enclosing `for` - nothing is
+    yielded from elsewhere, nothing is changed on the way out"""
+    import ast
+    ok, n = True, 0
+
+    def walk(node, loopvar):
+        nonlocal ok, n
+        for ch in ast.iter_child_nodes(node):
+            if isinstance(ch, (ast.FunctionDef, ast.Lambda, ast.AsyncFunctionDef)):
+                continue
+            if isinstance(ch, ast.YieldFrom):
+                ok = False
+            if isinstance(ch, ast.Yield):
+                n += 1
+                v = ch.value
+                if not (isinstance(v, ast.Call) and isinstance(v.func, ast.Attribute) and v.func.attr == "propagate"
+                        and isinstance(v.func.value, ast.Name) and v.func.value.id in ("self", "cls") and not v.keywords
+                        and len(v.args) == 1 and isinstance(v.args[0], ast.Name) and v.args[0].id == loopvar):
+                    ok = False
+            if isinstance(ch, ast.For) and isinstance(ch.target, ast.Name):
+                walk(ch, ch.target.id)
+            else:
+                walk(ch, loopvar)
+    walk(fn, None)
+    return ok and n > 0
+
+
+def extract_routes():
+    """Generated/SolarRoutes.lean: which class each of the analytical propagators takes `propagate`, `iter`, `_iter` from
+    (method resolution of the live classes) and whether that `_iter` has the shape the model has: it yields
+    `self.propagate(date)` for each date - so that a tabulation is the list of the single propagations (Solar.table)."""
+    import ast, inspect, textwrap
+    from beyond.env import solarsystem
+    rows, shapes = [], []
+    for cls in (solarsystem.SunPropagator, solarsystem.MoonPropagator, solarsystem.EarthPropagator):
+        for meth in ("propagate", "iter", "_iter", "_propagate"):
+            owner = next((k.__name__ for k in cls.__mro__ if meth in vars(k)), "none")
+            rows.append((cls.__name__, meth, owner))
+        fn = inspect.unwrap(getattr(cls._iter, "__func__", cls._iter))
+        tree = ast.parse(textwrap.dedent(inspect.getsource(fn))).body[0]
+        shapes.append((cls.__name__, _yields_propagate_of_each_date(tree)))
+    text = ("/- GENERATED by harness/props/C18.py from the live classes of beyond/env/solarsystem.py (method resolution order) and the AST\n"
+            "   of the `_iter` they resolve to — do not edit. -/\n"
+            "namespace BeyondVerif.Generated\n\n"
+            "/-- (propagator class, method, class whose body defines the method that class resolves to) -/\n"
+            "def solarMethodOwner : List (String × String × String) := [\n  "
+            + ",\n  ".join(f'("{c}", "{m}", "{o}")' for c, m, o in rows) + "]\n\n"
+            "/-- the `_iter` the class resolves to yields `self.propagate(date)` for each date of its loops and nothing else -/\n"
+            "def solarIterPropagatesEachDate : List (String × Bool) := ["
+            + ", ".join(f'("{c}", {"true" if b else "false"})' for c, b in shapes) + "]\n\n"
+            "end BeyondVerif.Generated\n")
+    if core.write_if_changed(os.path.join(core.LEAN, "BeyondVerif", "Generated", "SolarRoutes.lean"), text):
+        return ["Generated/SolarRoutes.lean"]
+    return []
 
 
 # ---------------------------------------------------------------- the argument handed to jplephem, read from the source
@@ -1427,6 +1500,7 @@ def correspondence(ctx):
         compare_rows(out, r, label, job["dates"], reqs, meta)
         corr_histories(out, r["hist"], reqs, meta)
     corr_series(out, rng, ctx.n(400, 20000))
+    corr_tabulations(out, rng, ctx.n(60, 1500))
     replies = run_driver(reqs)
     for m, rep in zip(meta, replies):
         if m[0] == "hist":
@@ -1482,6 +1556,176 @@ def corr_series(out, rng, n):
         if any(not core.close(x, y, rtol=1e-10, atol=1e-10 * (sp if k < 3 else sv)) for k, (x, y) in enumerate(zip(real, model))):
             out.fail(f"series-model-{name}", f"{name} state differs between beyond and the Lean model (series translated from the source)", inp, observed=real, expected=model)
         out.sample({"body": name, "T": ts[1], "impl": real, "model": model}, limit=4)
+
+
+# ---------------------------------------------------------------- tabulations of the analytical bodies
+
+TAB_ROUTES = ("iter-range", "iter-timedelta-stop", "iter-default-start", "iter-backwards", "iter-dates", "iter-dates-generator",
+              "ephemeris", "ephemeris-dates", "ephem", "ephem-dates", "propagator-iter", "propagator-iter-dates", "iter-listeners")
+# steps between the points of a tabulation (seconds): well below, at, and well above the two built-in difference steps
+TAB_STEPS = (1.0, 60.0, 600.0, 3600.0, 21600.0, 43200.0, 86400.0, 2 * 86400.0, 5 * 86400.0, 10 * 86400.0, 20 * 86400.0, 45 * 86400.0)
+
+
+def gen_tabulation(rng, i):
+    """one tabulation of the analytical Sun / Moon: the body, the public route, the first date, and the offsets (seconds)
+    of the points from it.  Routes taking start/stop/step get equally spaced offsets (the stop placed on the last point, or
+    up to 0.9 step beyond it: Date.range(..., inclusive=True) ends at the last point not after the stop); routes taking
+    `dates=` also get irregular, repeated and unsorted dates.  1 to 9 points: one, two and three points are the shortest
+    tables (no neighbour, one neighbour, one interior point)."""
+    body = ("Sun", "Moon")[i % 2]
+    route = TAB_ROUTES[(i // 2) % len(TAB_ROUTES)] if rng.random() < 0.8 else rng.choice(TAB_ROUTES)
+    day = rng.randint(51544, 59214) if rng.random() < 0.8 else rng.randint(33282, 69807)
+    sec = rng.choice([0.0, 43200.0, round(rng.uniform(0, 86400), 3)])
+    n = rng.choice([1, 2, 3, 3, 4, 5, 5, 7, 9])
+    step = rng.choice(TAB_STEPS) if rng.random() < 0.8 else round(rng.uniform(30.0, 30 * 86400.0), 3)
+    spec = {"body": body, "route": route, "start": [day, sec], "step_s": step, "n": n, "beyond_stop": 0.0}
+    if "dates" in route:
+        kind = rng.choice(["regular", "regular", "irregular", "repeated", "unsorted"])
+        if kind == "regular":
+            offs = [k * step for k in range(n)]
+        else:
+            offs = [0.0]
+            for _ in range(n - 1):
+                offs.append(round(offs[-1] + rng.uniform(0.05, 2.0) * step, 3))
+            if kind == "repeated" and n > 1:
+                j = rng.randrange(1, n)
+                offs[j] = offs[j - 1]
+            if kind == "unsorted":
+                rng.shuffle(offs)
+        spec["dates_kind"] = kind
+    else:
+        sign = -1.0 if route == "iter-backwards" else 1.0
+        offs = [sign * k * step for k in range(n)]
+        # default start = the date of the orbit, which the Moon propagator returns in TDB: the end of the range is then
+        # compared across scales at the microsecond (Date.range is C03's) - the stop is kept off the last point there
+        spec["beyond_stop"] = rng.choice([0.5, 0.9] if route == "iter-default-start" else [0.0, 0.0, 0.5, 0.9])
+    spec["offsets_s"] = offs
+    return spec
+
+
+def tab_dates(spec):
+    from beyond.dates import timedelta
+    start = make_date(*spec["start"])
+    return start, [start + timedelta(seconds=o) for o in spec["offsets_s"]]
+
+
+def run_tabulation(spec):
+    """drive the real objects: -> (requested dates, list of states as returned) or raises"""
+    from beyond.dates import timedelta
+    from beyond.env.solarsystem import get_body
+    from beyond.propagators.listeners import LightListener
+    body = get_body(spec["body"])
+    start, dates = tab_dates(spec)
+    route = spec["route"]
+    step = timedelta(seconds=spec["step_s"])
+    last = spec["offsets_s"][-1]
+    span = timedelta(seconds=last + (spec["beyond_stop"] * spec["step_s"] if last >= 0 else -spec["beyond_stop"] * spec["step_s"]))
+    stop = start + span
+    orb = body.propagate(start)
+    if route == "iter-default-start":
+        # the first date is the orbit's own (the Moon propagator returns it in TDB) and the steps are taken from it, in its scale
+        dates = [orb.date + timedelta(seconds=o) for o in spec["offsets_s"]]
+    if route.startswith("ephem-") or route == "ephem":
+        dates = sorted(dates, key=lambda x: x.mjd)          # an Ephem holds its states in chronological order
+    if route == "iter-range":
+        res = list(orb.iter(start=start, stop=stop, step=step))
+    elif route == "iter-timedelta-stop":
+        res = list(orb.iter(start=start, stop=span, step=step))
+    elif route == "iter-default-start":
+        res = list(orb.iter(stop=stop, step=step))
+    elif route == "iter-backwards":
+        res = list(orb.iter(start=start, stop=stop, step=step))          # positive step, stop before start: the code turns it round
+    elif route == "iter-dates":
+        res = list(orb.iter(dates=dates))
+    elif route == "iter-dates-generator":
+        res = list(orb.iter(dates=(d for d in dates)))
+    elif route == "ephemeris":
+        res = list(orb.ephemeris(start=start, stop=stop, step=step))
+    elif route == "ephemeris-dates":
+        res = list(orb.ephemeris(dates=dates))
+    elif route == "ephem":
+        res = list(orb.ephem(start=start, stop=stop, step=step))
+    elif route == "ephem-dates":
+        res = list(orb.ephem(dates=dates))
+    elif route == "propagator-iter":
+        # (a propagator no orbit was attached to cannot tabulate: AnalyticalPropagator.iter reads self.orbit.date first)
+        prop = type(orb.propagator)()
+        prop.orbit = orb
+        res = list(prop.iter(start=start, stop=stop, step=step))
+    elif route == "propagator-iter-dates":
+        prop = type(orb.propagator)()
+        prop.orbit = orb
+        res = list(prop.iter(dates=dates))
+    elif route == "iter-listeners":
+        # a listener that can never fire on these orbits still makes iter() take the listening path
+        res = list(orb.iter(start=start, stop=stop, step=step, listeners=[]))
+    else:
+        raise ValueError(route)
+    return dates, res
+
+
+def tabulation_points(spec):
+    """-> ('ok', [(k, requested date, six floats)]) or (status, detail)"""
+    import numpy as np
+    try:
+        dates, res = run_tabulation(spec)
+    except Exception as ex:  # noqa: BLE001
+        return "raised " + type(ex).__name__, str(ex)[:120]
+    if len(res) != len(dates):
+        return "count", [len(res), len(dates)]
+    pts = []
+    for k, (d, st) in enumerate(zip(dates, res)):
+        if abs((st.date - d).total_seconds()) > 1e-6:
+            return "dates", [k, str(st.date), str(d)]
+        if st.form.name != "cartesian":
+            return "form", [k, st.form.name]
+        # the requested date, as handed to the route (its scale included: the difference step is taken in that scale)
+        pts.append((k, d, [float(x) for x in np.asarray(st, dtype=float)], str(st.frame)))
+    return "ok", pts
+
+
+def tab_place(k, n):
+    return "single" if n == 1 else "first" if k == 0 else "last" if k == n - 1 else "interior"
+
+
+def corr_tabulations(out, rng, n):
+    """every point of a tabulation of the Sun / Moon obtained through any public route (Orbit.iter / ephemeris / ephem,
+    propagator.iter; start-stop-step or dates=) vs the Lean `Solar.sunTable` / `moonTable` fed with the Julian centuries of
+    (date - step, date, date + step) of the requested dates: the model tabulates by propagating each date on its own."""
+    from beyond.env.solarsystem import get_body
+    env(True)
+    reqs, meta = [], []
+    for i in range(n):
+        spec = gen_tabulation(rng, i)
+        name = spec["body"].lower()
+        body = get_body(spec["body"])
+        scale = "UT1" if name == "sun" else "TDB"
+        h = body.propagator._diff_step
+        st, pts = tabulation_points(spec)
+        out.count(key=json.dumps(spec, sort_keys=True), nontrivial=spec["n"] >= 3, kind="tabulation-" + name, route=spec["route"], points=spec["n"], status=st)
+        if st != "ok":
+            out.fail(f"series-tabulation-{st.split()[0]}-{name}-{spec['route']}", "a tabulation of the analytical body does not return one cartesian state per requested date",
+                     spec, observed=pts, expected="one state per date, at that date")
+            continue
+        ts = []
+        for k, d, vec, frame in pts:
+            ts += [float(x.change_scale(scale).julian_century) for x in (d - h, d, d + h)]
+        reqs.append(" ".join([name + "tab", str(len(pts))] + [f2b(t) for t in ts]))
+        meta.append((spec, pts))
+    for (spec, pts), rep in zip(meta, core.Driver().run(reqs)):
+        name = spec["body"].lower()
+        rows = [[b2f(x) for x in r.split()] for r in rep.split("|")] if rep[:1].isdigit() or rep[:1] == "-" else None
+        if rows is None or len(rows) != len(pts) or any(len(r) != 6 for r in rows):
+            out.fail("series-model-status", "model rejected the tabulation", spec, observed=len(pts), expected=rep[:40])
+            continue
+        for (k, d, real, frame), model in zip(pts, rows):
+            sp = max(abs(x) for x in real[:3]); sv = max(max(abs(x) for x in real[3:]), max(abs(x) for x in model[3:]))
+            if any(not core.close(x, y, rtol=1e-10, atol=1e-10 * (sp if j < 3 else sv)) for j, (x, y) in enumerate(zip(real, model))):
+                out.fail(f"series-model-tabulation-{name}-{spec['route']}-{tab_place(k, len(pts))}",
+                         f"point {k} of {len(pts)} of a tabulation differs from the Lean model (each date propagated on its own: series + symmetric difference at the class's step)",
+                         dict(spec, point=k, date=str(d)), observed=real, expected=model)
+                break
+        out.sample({"tabulation": spec, "impl_last": pts[-1][2], "model_last": rows[-1]}, limit=2)
 
 
 # ---------------------------------------------------------------- oracle on the real API
@@ -1614,6 +1858,71 @@ def sun_moon_reference(e, jd):
     return sun, moon
 
 
+def velocity_vs_derivative(body, d, own):
+    """the velocity entries of `own` (a state of `body` at the date `d`, in the frame of its propagator) against the time
+    derivative of the positions: symmetric differences of the positions at a step 64 times smaller than the class's, with
+    the error bound of the theorem central_difference_error evaluated from numerical third differences over the stencil
+    [-h, h] (h = the class's step).  -> (largest component error, bound, derivative)"""
+    import numpy as np
+    from beyond.dates import timedelta
+    h = body.propagator._diff_step.total_seconds()
+
+    def pos(dt):
+        return np.asarray(body.propagate(d + timedelta(seconds=dt)), dtype=float)[:3]
+    s = h / 64.0
+    deriv = (pos(s) - pos(-s)) / (2 * s)
+    # third derivative over the stencil [-h, h] from third differences at step h/2 on a few offsets
+    k = h / 2
+    third = 0.0
+    for off in (-k / 2, 0.0, k / 2):
+        t3 = (pos(off + 1.5 * k) - 3 * pos(off + 0.5 * k) + 3 * pos(off - 0.5 * k) - pos(off - 1.5 * k)) / k ** 3
+        third = max(third, float(np.max(np.abs(t3))))
+    bound = h * h / 6 * third * 2.0 + (s * s / 6 * third) + 1e-6 * float(np.linalg.norm(own[3:]))
+    err = float(np.max(np.abs(np.asarray(own[3:], dtype=float) - deriv)))
+    return err, bound, deriv
+
+
+def oracle_tabulations(out, rng, n):
+    """the velocity clause for every way a Sun / Moon state is obtained: every point of a tabulation (Orbit.iter, ephemeris,
+    ephem, propagator.iter; start-stop-step or dates=; any step, any number of points, first and last point included) is at
+    the requested date, has the position the body has at that date, and a velocity equal to the time derivative of the
+    positions within the bound of the theorem at the class's step - whatever the step of the table."""
+    import numpy as np
+    from beyond.env.solarsystem import get_body
+    env(True)
+    worst = {}
+    for i in range(n):
+        spec = gen_tabulation(rng, i)
+        name = spec["body"].lower()
+        body = get_body(spec["body"])
+        st, pts = tabulation_points(spec)
+        out.count(key=json.dumps(spec, sort_keys=True), nontrivial=spec["n"] >= 3, kind="tabulation-" + name, route=spec["route"], points=spec["n"])
+        if st != "ok":
+            out.fail(f"series-tabulation-{st.split()[0]}-{name}-{spec['route']}", "a tabulation of the analytical body does not return one cartesian state per requested date",
+                     spec, observed=pts, expected="one state per date, at that date")
+            continue
+        for k, d, vec, frame in pts:
+            place = tab_place(k, len(pts))
+            inp = dict(spec, point=k, date=str(d), place=place)
+            fam = f"series-{name}-tabulation-{spec['route']}-{place}"
+            single = np.asarray(body.propagate(d), dtype=float)
+            if frame != body.propagator.FRAME:
+                out.fail(fam + "-frame", "a tabulated state is not in the frame of the propagator", inp, observed=frame, expected=body.propagator.FRAME)
+                break
+            if not np.allclose(vec[:3], single[:3], rtol=1e-12, atol=1e-3):
+                out.fail(fam + "-position", f"point {k} of a tabulation is not where the body is at that date", inp, observed=vec[:3], expected=[float(x) for x in single[:3]])
+                break
+            err, bound, deriv = velocity_vs_derivative(body, d, np.asarray(vec, dtype=float))
+            rel = err / float(np.linalg.norm(deriv))
+            worst[(name, place)] = max(worst.get((name, place), 0.0), rel)
+            if not err <= bound:
+                out.fail(fam + "-velocity", f"the velocity of point {k} of {len(pts)} of a tabulation of the {name} ({spec['route']}, step {spec['step_s']} s) is not the time derivative of the positions "
+                         f"within h^2/6 sup|f'''| (off by {100 * rel:.3g} % of the speed)", inp, observed=vec[3:], expected=[float(x) for x in deriv], bound=bound)
+                break
+    out.notes.append("worst velocity error of tabulated points relative to the speed: " + json.dumps({f"{a}-{b}": float(f"{v:.3g}") for (a, b), v in sorted(worst.items())}))
+
+
+
 def oracle_series(out, rng, n):
     """Sun / Moon analytical series against DE403 at the accuracies of the property statement, on a 2000-2020 grid;
     velocity against the derivative of the position (symmetric differences at a much smaller step, with the
@@ -1648,20 +1957,8 @@ def oracle_series(out, rng, n):
             if dr > tol_dist:
                 out.fail(f"series-{name}-distance", f"{name} distance differs from DE403 by more than {tol_dist} (relative)", inp, observed=dr, expected=tol_dist)
             # velocity = time derivative of the position (own frame of the propagator)
-            h = body.propagator._diff_step.total_seconds()
             own = np.asarray(orb, dtype=float)
-            def pos(dt):
-                return np.asarray(body.propagate(d + timedelta(seconds=dt)), dtype=float)[:3]
-            s = h / 64.0
-            deriv = (pos(s) - pos(-s)) / (2 * s)
-            # third derivative over the stencil [-h, h] from third differences at step h/2 on a few offsets
-            k = h / 2
-            third = 0.0
-            for off in (-k / 2, 0.0, k / 2):
-                t3 = (pos(off + 1.5 * k) - 3 * pos(off + 0.5 * k) + 3 * pos(off - 0.5 * k) - pos(off - 1.5 * k)) / k ** 3
-                third = max(third, float(np.max(np.abs(t3))))
-            bound = h * h / 6 * third * 2.0 + (s * s / 6 * third) + 1e-6 * float(np.linalg.norm(own[3:]))
-            err = float(np.max(np.abs(own[3:] - deriv)))
+            err, bound, deriv = velocity_vs_derivative(body, d, own)
             worst[name + "_vel"] = max(worst[name + "_vel"], err / float(np.linalg.norm(deriv)))
             out.count(key=(name, "vel", day, sec), kind=name + "-velocity")
             if not err <= bound:
@@ -1687,6 +1984,7 @@ def sweep(ctx, big):
     oracle_spk(out, ctx.rng, 24 if big else 4, 150 if big else 10)
     oracle_synthetic(out, ctx.rng, 40 if big else 5)
     oracle_series(out, ctx.rng, 12000 if big else 300)
+    oracle_tabulations(out, ctx.rng, 600 if big else 40)
     return out
 
 
